@@ -1,12 +1,225 @@
-//! C26 — not built yet.
-use crate::runner::{Outcome, Summary};
-use crate::Ctx;
-use serde_json::Value;
+//! C26 — default frame matching follows the Quil-T frame rules.
+//!
+//! replay: TLC cases {frames, uq, instr, want} from spec/mc/MC_FrameMatch.tla: a program defining `frames` and
+//!         using the qubits `uq` is built, `DefaultHandler.matching_frames(&program, &instr)` is called and the
+//!         used / blocked sets are compared with what the rules of the property demand (`want`, computed by TLC
+//!         from FrameMatch!UsedBy / BlockedBy).  `want` IS the property, so a difference is a violation.
+//! drive:  seeded random larger frame sets (up to 12 frames over 5 qubits and 4 names), instructions and used
+//!         qubit sets; the real results are recorded for spec/trace/FrameMatchTrace.tla.
+//! Shared code (abstraction function) lives in c22.rs.
 
-pub fn replay(_ctx: &Ctx, _case: &Value) -> Outcome {
-    panic!("C26: replay not implemented")
+use super::c22::{abs_frame, abs_instr, not_reproduced, text_frame, try_real_instr};
+use crate::runner::{Outcome, Summary, Violation};
+use crate::util::{self, arr, s};
+use crate::Ctx;
+use quil_rs::instruction::{DefaultHandler, Instruction, InstructionHandler};
+use quil_rs::quil::Quil;
+use quil_rs::Program;
+use rand::seq::SliceRandom;
+use rand::Rng;
+use serde_json::{json, Value};
+
+/// DEFFRAMEs for `frames`, and one gate per used qubit (gates put their qubits into the used-qubit set).
+fn program_for(frames: &[Value], uq: &[u64]) -> Program {
+    let mut t = String::new();
+    for f in frames {
+        t.push_str(&format!("DEFFRAME {}:\n    SAMPLE-RATE: 1.0\n", text_frame(f)));
+    }
+    for q in uq {
+        t.push_str(&format!("X {q}\n"));
+    }
+    util::program(&t)
 }
 
-pub fn drive(_ctx: &Ctx) -> Summary {
-    panic!("C26: drive not implemented")
+fn sorted(mut v: Vec<Value>) -> Value {
+    v.sort_by_key(|x| x.to_string());
+    Value::Array(v)
+}
+
+/// the real result in the model's encoding: {"some": {"used": [...], "blocked": [...]}} | {"none": true}
+fn real_matching(program: &Program, i: &Instruction) -> Value {
+    match DefaultHandler.matching_frames(program, i) {
+        None => json!({"none": true}),
+        Some(m) => json!({"some": {"used": sorted(m.used.iter().map(|f| abs_frame(f)).collect()),
+                                   "blocked": sorted(m.blocked.iter().map(|f| abs_frame(f)).collect())}}),
+    }
+}
+
+fn canon(v: &Value) -> Value {
+    match v.get("some") {
+        Some(x) => json!({"some": {"used": sorted(x["used"].as_array().cloned().unwrap_or_default()),
+                                   "blocked": sorted(x["blocked"].as_array().cloned().unwrap_or_default())}}),
+        None => json!({"none": true}),
+    }
+}
+
+/// The rules of the property, in Rust.  Used only to judge the replay of a recorded history (a rejection of the
+/// trace validation), where no TLC-computed expectation is at hand; the primary oracle is FrameMatch.tla.
+fn rule(i: &Value, frames: &[Value], uq: &[u64]) -> Value {
+    use std::collections::BTreeSet;
+    let qs = |f: &Value| -> BTreeSet<u64> { f["qubits"].as_array().unwrap().iter().map(|q| q.as_u64().unwrap()).collect() };
+    let list = |k: &str| -> BTreeSet<u64> { i[k].as_array().unwrap().iter().map(|q| q.as_u64().unwrap()).collect() };
+    let pick = |p: &dyn Fn(&Value) -> bool| -> Vec<Value> { frames.iter().filter(|f| p(f)).cloned().collect() };
+    let (used, blocked): (Vec<Value>, Vec<Value>) = match s(i, "k").as_str() {
+        "Pulse" | "Capture" | "RawCapture" => {
+            let own = &i["frame"];
+            let b = if i["blocking"].as_bool().unwrap() { pick(&|f| f != own && !qs(f).is_disjoint(&qs(own))) } else { vec![] };
+            (pick(&|f| f == own), b)
+        }
+        "SetFrequency" | "SetPhase" | "SetScale" | "ShiftFrequency" | "ShiftPhase" => (pick(&|f| f == &i["frame"]), vec![]),
+        "SwapPhases" => (pick(&|f| f == &i["frame_1"] || f == &i["frame_2"]), vec![]),
+        "Fence" => {
+            let q = list("qubits");
+            (if q.is_empty() { frames.to_vec() } else { pick(&|f| !qs(f).is_disjoint(&q)) }, vec![])
+        }
+        "Delay" => {
+            let q = list("qubits");
+            let names: Vec<&str> = i["frame_names"].as_array().unwrap().iter().map(|n| n.as_str().unwrap()).collect();
+            (pick(&|f| qs(f) == q && (names.is_empty() || names.contains(&f["name"].as_str().unwrap()))), vec![])
+        }
+        "Reset" => {
+            let target: BTreeSet<u64> = match i["qubit"].get("some") { Some(q) => [q.as_u64().unwrap()].into(), None => uq.iter().cloned().collect() };
+            (pick(&|f| qs(f) == target), pick(&|f| !qs(f).is_disjoint(&target) && qs(f) != target))
+        }
+        _ => return json!({"none": true}),
+    };
+    canon(&json!({"some": {"used": used, "blocked": blocked}}))
+}
+
+pub fn replay(_ctx: &Ctx, case: &Value) -> Outcome {
+    // a violation replay file from trace validation carries the recorded history: re-run it, judged by `rule`
+    let case = match case.get("history") {
+        Some(h) => {
+            let mut e = h.as_array().and_then(|a| a.iter().find(|e| e["ev"] == "match")).cloned().unwrap_or(Value::Null);
+            let uq: Vec<u64> = arr(&e, "uq").iter().map(|q| q.as_u64().unwrap()).collect();
+            e["want"] = rule(&e["instr"], arr(&e, "frames"), &uq);
+            e
+        }
+        None => case.clone(),
+    };
+    let frames = arr(&case, "frames").clone();
+    let uq: Vec<u64> = arr(&case, "uq").iter().map(|q| q.as_u64().unwrap()).collect();
+    let i = match try_real_instr(&case["instr"]) {
+        Ok(i) => i,
+        Err(e) => return not_reproduced(e),
+    };
+    let program = program_for(&frames, &uq);
+    // the program must have exactly the frames and used qubits the case states
+    if program.frames.len() != frames.len() {
+        return not_reproduced("frame set of the case not reproduced".into());
+    }
+    let mut got_uq: Vec<u64> = program.get_used_qubits().iter().map(|q| match q {
+        quil_rs::instruction::Qubit::Fixed(n) => *n,
+        _ => panic!("non-fixed qubit"),
+    }).collect();
+    got_uq.sort();
+    let mut want_uq = uq.clone();
+    want_uq.sort();
+    want_uq.dedup();
+    if got_uq != want_uq {
+        return not_reproduced("used qubits of the case not reproduced".into());
+    }
+    let got = real_matching(&program, &i);
+    let matched = got.get("some").map(|x| x["used"].as_array().unwrap().len() + x["blocked"].as_array().unwrap().len()).unwrap_or(0);
+    let mut o = Outcome::ok(matched >= 1 && frames.len() >= 2);
+    if let Some(w) = case.get("want") {
+        let want = canon(w);
+        if want != got {
+            let what = if want.get("some").is_some() != got.get("some").is_some() { "whether the instruction has frame semantics" }
+                       else if want["some"]["used"] != got["some"]["used"] { "used frames" } else { "blocked frames" };
+            o.violate(Violation::new(what, want, got).note(i.to_quil_or_debug()));
+        }
+    }
+    o
+}
+
+const NAMES: &[&str] = &["a", "b", "c", "d"];
+
+fn rnd_frame(r: &mut impl Rng) -> Value {
+    let n = r.gen_range(1..=3);
+    let mut qs: Vec<u64> = (0..5).collect();
+    qs.shuffle(r);
+    qs.truncate(n);
+    json!({"name": NAMES.choose(r).unwrap(), "qubits": qs})
+}
+
+fn rnd_qubits(r: &mut impl Rng, max: usize) -> Vec<u64> {
+    let mut qs: Vec<u64> = (0..5).collect();
+    qs.shuffle(r);
+    qs.truncate(r.gen_range(0..=max));
+    qs
+}
+
+pub fn drive(ctx: &Ctx) -> Summary {
+    if std::env::var("QV_LOUD").is_ok() {
+        let _ = std::panic::take_hook(); // debugging aid: show panic messages of the driver
+    }
+    let n = ctx.arg_u64("n", 300);
+    let path = ctx.arg_str("out").expect("--out");
+    let mut out = std::io::BufWriter::new(std::fs::File::create(path).expect("create trace"));
+    let mut rng = util::rng(ctx.seed, 26);
+    let mut sum = Summary::default();
+    for _ in 0..n {
+        let k = rng.gen_range(0..=12);
+        let mut frames: Vec<Value> = vec![];
+        for _ in 0..k {
+            let f = rnd_frame(&mut rng);
+            if !frames.contains(&f) {
+                frames.push(f);
+            }
+        }
+        // the instruction names a defined frame (usually) or a random one
+        let pick = |r: &mut rand_chacha::ChaCha8Rng, frames: &[Value]| -> Value {
+            if !frames.is_empty() && r.gen_bool(0.75) { frames.choose(r).unwrap().clone() } else { rnd_frame(r) }
+        };
+        let f = text_frame(&pick(&mut rng, &frames));
+        let g = text_frame(&pick(&mut rng, &frames));
+        let nb = if rng.gen_bool(0.5) { "NONBLOCKING " } else { "" };
+        // DELAY / FENCE / RESET on the qubits of a defined frame (usually), so that exact matches occur
+        let qs: Vec<u64> = if !frames.is_empty() && rng.gen_bool(0.7) {
+            let mut q: Vec<u64> = frames.choose(&mut rng).unwrap()["qubits"].as_array().unwrap().iter().map(|x| x.as_u64().unwrap()).collect();
+            q.shuffle(&mut rng);
+            q
+        } else {
+            rnd_qubits(&mut rng, 3)
+        };
+        let qtext = qs.iter().map(|q| q.to_string()).collect::<Vec<_>>().join(" ");
+        let names: Vec<String> = (0..rng.gen_range(1..=2)).map(|_| format!("\"{}\"", NAMES.choose(&mut rng).unwrap())).collect();
+        let text = match rng.gen_range(0..14) {
+            0 | 1 => format!("{nb}PULSE {f} flat(duration: 1.0, iq: 1.0)"),
+            2 => format!("{nb}CAPTURE {f} flat(duration: 1.0, iq: 1.0) r[0]"),
+            3 => format!("{nb}RAW-CAPTURE {f} 1.0 r[0]"),
+            4 => format!("SET-PHASE {f} 1.0"),
+            5 => format!("SHIFT-FREQUENCY {f} 1.0"),
+            6 => format!("SWAP-PHASES {f} {g}"),
+            7 => "FENCE".to_string(),
+            8 => if qs.is_empty() { "FENCE".to_string() } else { format!("FENCE {qtext}") },
+            9 if !qs.is_empty() => format!("DELAY {qtext} 1.0"),
+            10 if !qs.is_empty() => format!("DELAY {qtext} {} 1.0", names.join(" ")),
+            11 => "RESET".to_string(),
+            12 if !qs.is_empty() => format!("RESET {}", qs[0]),
+            _ => format!("SET-SCALE {f} 1.0"),
+        };
+        let i = util::instr(&text);
+        // bare RESET: used qubits are often exactly the qubits of a defined frame
+        let uq: Vec<u64> = if !frames.is_empty() && rng.gen_bool(0.6) {
+            frames.choose(&mut rng).unwrap()["qubits"].as_array().unwrap().iter().map(|x| x.as_u64().unwrap()).collect()
+        } else {
+            rnd_qubits(&mut rng, 4)
+        };
+        let program = program_for(&frames, &uq);
+        let got = real_matching(&program, &i);
+        let abs = abs_instr(&i).expect("abstraction of a driver instruction");
+        let mut uq_sorted = uq.clone();
+        uq_sorted.sort();
+        uq_sorted.dedup();
+        util::emit(&mut out, &json!({"ev": "reset"}));
+        let rec = json!({"ev": "match", "frames": frames, "uq": uq_sorted, "instr": abs, "res": got});
+        util::emit(&mut out, &rec);
+        let matched = got.get("some").map(|x| x["used"].as_array().unwrap().len() + x["blocked"].as_array().unwrap().len()).unwrap_or(0);
+        let mut o = Outcome::ok(matched >= 1 && frames.len() >= 2);
+        o.count_n("events", 2);
+        sum.absorb(&json!({"text": text, "frames": frames.iter().map(text_frame).collect::<Vec<_>>(), "uq": uq_sorted}), &o, true);
+    }
+    sum
 }
